@@ -49,6 +49,8 @@ ChkOK(e) ==
             ELSE r.k = "failed" /\ o.who = r.r.who
        [] OTHER -> FALSE          \* panics and unexpected error kinds are never explained
   /\ SameBag(e.marks, Marks(r))
+  \* C04 / C16: set validation accepts only sets that propose one value per contract and key
+  /\ e.accepted => DeclUnique(e.case)
 
 TraceInit == l = 1
 TraceNext == l <= Len(Rec) /\ ChkOK(Rec[l]) /\ l' = l + 1
